@@ -482,6 +482,16 @@ macro_rules! fixedcaps { ($name:ident, $A:ty) => {
         let hx: String = (0..cap / 4 + 1).map(|_| 'f').collect();
         assert!(<$A>::from_hex(&hx) == Err(ConvertionError::NotEnoughCapacity));
         assert!(<$A>::try_from(&Bvd::ones(cap + 1)).is_err());
+        // TryFrom beyond capacity is an error whatever the source's implementation and VALUE (also when the excess bits are zero)
+        let lo = s.upto(cap);
+        let mut zl = Bvd::ones(lo); zl.resize(over, Bit::Zero);
+        assert!(<$A>::try_from(&zl).is_err());
+        assert!(<$A>::try_from(zl.clone()).is_err());
+        assert!(<$A>::try_from(&Bv::from(zl.clone())).is_err());
+        let mut wide = Bvf::<u64, 3>::ones(lo); wide.resize(over, Bit::Zero);
+        assert!(<$A>::try_from(&wide).is_err());
+        let mut w8 = Bvf::<u8, 20>::ones(lo); w8.resize(over, Bit::Zero);
+        assert!(<$A>::try_from(&w8).is_err());
         if cfg!(debug_assertions) && la > 0 {
             let i = la + s.upto(5);
             let b1 = a.clone(); assert!(panics(move || { let _ = b1.get(i); }));
@@ -519,6 +529,13 @@ macro_rules! forms { ($name:ident, $A:ty, $B:ty) => {
         same!(&a << k, a.clone() << k); same!(&a << k, &a << &k); same!(&a << k, a.clone() << &k); { let mut t = a.clone(); t <<= k; same!(&a << k, t); let mut u = a.clone(); u <<= &k; same!(&a << k, u); }
         same!(&a >> k, a.clone() >> k); same!(&a >> k, &a >> &k); { let mut t = a.clone(); t >>= k; same!(&a >> k, t); }
         same!(&a << k, &a << (k as u128)); same!(&a >> k, &a >> (k as usize)); same!(&a << k, &a << (k as u16));
+        // wide amounts (>= 2^32, >= 2^64): every form saturates the same way
+        let kw = shift_amount(s);
+        same!(&a << kw, a.clone() << kw); same!(&a << kw, &a << &kw); { let mut t = a.clone(); t <<= kw; same!(&a << kw, t); }
+        same!(&a >> kw, a.clone() >> kw); same!(&a >> kw, a.clone() >> &kw); { let mut t = a.clone(); t >>= kw; same!(&a >> kw, t); }
+        let k64 = (kw >> 7) as u64;
+        same!(&a << k64, a.clone() << k64); { let mut t = a.clone(); t <<= k64; same!(&a << k64, t); }
+        same!(&a >> k64, a.clone() >> k64); { let mut t = a.clone(); t >>= &k64; same!(&a >> k64, t); }
         same!(!&a, !a.clone());
         // native integer operand vs a vector built from it
         let x = s.u64();
@@ -528,11 +545,17 @@ macro_rules! forms { ($name:ident, $A:ty, $B:ty) => {
         if x != 0 { same!(&a / x, &a / &xv); same!(&a % x, &a % &xv); }
         let x8 = s.byte(); let xv8 = Bvd::from(x8);
         same!(&a | x8, &a | &xv8); same!(&a + x8, &a + &xv8);
+        // ... whatever implementation that vector has (same-word-type and different-word-type operand paths)
+        let xf8 = F81::try_from(x8).unwrap(); let xf64 = F641::try_from(x).unwrap();
+        same!(&a + x8, &a + &xf8); same!(&a - x8, &a - &xf8); same!(&a ^ x8, &a ^ &xf8);
+        same!(&a + x, &a + &xf64); same!(&a - x, &a - &xf64); same!(&a & x, &a & &xf64);
         let x128 = s.u128(); let xv128 = Bvd::from(x128);
         same!(&a ^ x128, &a ^ &xv128); same!(&a * x128, &a * &xv128);
     }
 }}
 forms!(forms__f82_f162, F82, F162);
+forms!(forms__f83_f81, F83, F81);
+forms!(forms__f642_f641, F642, F641);
 forms!(forms__f162_bvd, F162, Bvd);
 forms!(forms__f642_bv, F642, Bv);
 forms!(forms__bvd_bvd, Bvd, Bvd);
